@@ -241,3 +241,38 @@ def b_quadrature(tier, seed):
             seen.add(f["what"])
             out.append(f)
     return {"cases": cases, "distinct": cases, "failures": out[:5], "bound": "n = 1..10, random intervals, relative tolerance 1e-11"}
+
+
+@static("C13", "Mesh1D/quadrature-tables")
+def s_mesh_quadrature(tier):
+    """the quadrature tables a mesh stores (qp, wp per element) on uniform AND non-uniform element partitions: points inside
+    the element, weights positive and summing to the element length, polynomials up to degree 2n-1 (Gauss) / 2n-3 (Lobatto)
+    integrated exactly over the element (executed natively; degrees 1..3 x element counts x partitions x rules)"""
+    out, bad, count = [], [], 0
+    rng = np.random.default_rng(13)
+    nels = (1, 2, 3, 5) if tier == "quick" else (1, 2, 3, 5, 8, 12)
+    for degree in (1, 2, 3):
+        for nel in nels:
+            parts = {"uniform": None, "graded": np.linspace(0, 1, nel + 1) ** 2, "random": np.concatenate([[0.0], np.sort(rng.uniform(0.05, 0.95, nel - 1)), [1.0]])}
+            for pname, data in parts.items():
+                for rule, nq, deg in (("Gauss", 2, 3), ("Gauss", 4, 7), ("Lobatto", 3, 3), ("Lobatto", 5, 7)):
+                    count += 1
+                    try:
+                        kv = lg.LagrangeKnotVector(degree, nel) if data is None else lg.LagrangeKnotVector(degree, nel, data=data)
+                        m = Mesh1D(kv, nq, dim_q=3, derivative_order=1, basis="Lagrange", quadrature=rule)
+                        ok = True
+                        for el in range(nel):
+                            lo, hi = kv.element_interval(el)
+                            q, w = np.asarray(m.qp[el], dtype=float), np.asarray(m.wp[el], dtype=float)
+                            ok = ok and bool(np.all(q >= lo - 1e-13) and np.all(q <= hi + 1e-13) and np.all(w > 0))
+                            ok = ok and bool(abs(w.sum() - (hi - lo)) <= 1e-13)
+                            for kk in range(deg + 1):
+                                exact = (hi ** (kk + 1) - lo ** (kk + 1)) / (kk + 1)
+                                ok = ok and bool(abs(w @ q**kk - exact) <= 1e-12)
+                    except Exception as e:  # noqa: BLE001
+                        ok = False
+                        pname = f"{pname} (raised {type(e).__name__}: {e})"
+                    if not ok:
+                        bad.append({"degree": degree, "nel": nel, "partition": pname, "rule": rule, "n": nq, "data": None if data is None else np.asarray(data).tolist()})
+    out.append({"name": f"quadrature tables of the mesh are exact on every element, uniform and non-uniform partitions ({count} meshes)", "ok": not bad, "backend": "exhaustive-enumeration", "show": "degrees 1..3 x element counts x {uniform, graded, random} x {Gauss 2, 4; Lobatto 3, 5}", "detail": str(bad[:3]), "replay": bad[0] if bad else None})
+    return out
